@@ -41,7 +41,8 @@ fn check_spans(src: &str) -> Result<(), String> {
 #[derive(Clone, Debug)]
 struct Decl { word: &'static str, names: Vec<&'static str>, sep: &'static str, exclusive: bool }
 #[derive(Clone, Debug)]
-enum Pat { Lit(String), Star(char), Plus(Vec<char>), Opt(char, char), Esc(&'static str, &'static str) }   // Esc(written regex, the one string it matches)
+enum Pat { Lit(String), Star(char), Plus(Vec<char>), Opt(char, char), Esc(&'static str, &'static str), Class(&'static str, &'static str) }   // Class(written regex `[..]+`, the characters of the class)
+//   // Esc(written regex, the one string it matches)
 impl Pat {
     fn render(&self) -> String {
         match self {
@@ -50,6 +51,7 @@ impl Pat {
             Pat::Plus(cs) => format!("[{}]+", cs.iter().collect::<String>()),
             Pat::Opt(x, y) => format!("{}?{}", x, y),
             Pat::Esc(w, _) => w.to_string(),
+            Pat::Class(w, _) => w.to_string(),
         }
     }
     /// length of the match at the start of `s`, if any (all forms are greedy: leftmost-first = longest)
@@ -63,6 +65,7 @@ impl Pat {
                 match it.next() { Some(a) if a == *x => if it.next() == Some(*y) { Some(2) } else { None }, Some(a) if a == *y => Some(1), _ => None }
             }
             Pat::Esc(_, m) => if s.starts_with(m) { Some(m.len()) } else { None },
+            Pat::Class(_, cs) => { let n: usize = s.chars().take_while(|x| cs.contains(*x)).map(|x| x.len_utf8()).sum(); if n > 0 { Some(n) } else { None } }
         }
     }
 }
@@ -111,7 +114,10 @@ fn gen_desc(rng: &mut Lcg) -> Desc {
         // escapes: a backslash before a character that is special neither to lex nor to the regex engine stands for that
         // character; \\x.. / \\u.... are handed to the regex engine
         const ESCS: &[(&str, &str)] = &[("\\c", "c"), ("\\x61", "a"), ("\\xe9", "é"), ("\\u00e9", "é"), ("\\xE9", "é"), ("\\x63\\x62", "cb")];
-        let pat = if rng.next(5) == 0 { let e = ESCS[rng.next(ESCS.len())]; Pat::Esc(e.0, e.1) } else { match rng.next(6) {
+        // a backslash before a character that is special to the regex engine is kept (also inside a class, where `\-` is a
+        // literal dash and `-` would make a range)
+        const CLASSES: &[(&str, &str)] = &[("[a\\-c]+", "a-c"), ("[\\-a]+", "-a"), ("[c\\#\\&]+", "c#&"), ("[a\\~\\.]+", "a~.")];
+        let pat = if rng.next(5) == 0 { let e = ESCS[rng.next(ESCS.len())]; Pat::Esc(e.0, e.1) } else if rng.next(6) == 0 { let c = CLASSES[rng.next(CLASSES.len())]; Pat::Class(c.0, c.1) } else { match rng.next(6) {
             0 => Pat::Star(abc[rng.next(3)]),
             1 => { let a = abc[rng.next(3)]; let b = abc[rng.next(3)]; Pat::Plus(if a == b { vec![a] } else { vec![a, b] }) }
             2 => { let a = abc[rng.next(3)]; let b = abc[(rng.next(2) + 1 + abc.iter().position(|c| *c == a).unwrap()) % 3]; Pat::Opt(a, b) }
@@ -201,7 +207,7 @@ fn check_desc(d: &Desc, src: &str, inputs: &[String]) -> Result<(), String> {
     if rules.len() != d.rules.len() { return Err(format!("{} rules, written {}", rules.len(), d.rules.len())); }
     for (k, (r, rd)) in rules.iter().zip(d.rules.iter()).enumerate() {
         if r.name() != rd.name.as_ref().map(|x| x.0.as_str()) { return Err(format!("rule {}: name {:?}, written {:?}", k, r.name(), rd.name)); }
-        if !matches!(rd.pat, Pat::Esc(..)) && r.re_str() != rd.pat.render() { return Err(format!("rule {}: regex {:?}, written {:?}", k, r.re_str(), rd.pat.render())); }
+        if !matches!(rd.pat, Pat::Esc(..) | Pat::Class(..)) && r.re_str() != rd.pat.render() { return Err(format!("rule {}: regex {:?}, written {:?}", k, r.re_str(), rd.pat.render())); }
         if r.start_states() != rd.restrict.as_slice() { return Err(format!("rule {}: restricted to states {:?}, written {:?}", k, r.start_states(), rd.restrict)); }
         let exp_t = rd.target.map(|(t, op)| (t, match op { 0 => StartStateOperation::ReplaceStack, 1 => StartStateOperation::Push, _ => StartStateOperation::Pop }));
         if r.target_state() != exp_t { return Err(format!("rule {}: target {:?}, written {:?}", k, r.target_state(), exp_t)); }
@@ -227,7 +233,7 @@ fn check_desc(d: &Desc, src: &str, inputs: &[String]) -> Result<(), String> {
 fn inputs_for(d: &Desc, rng: &mut Lcg) -> Vec<String> {
     let n = d.rules.len();
     let _ = n;
-    (0..8).map(|_| { let l = 1 + rng.next(6); (0..l).map(|_| ['a', 'b', 'c', 'é'][rng.next(4)]).collect() }).collect()
+    (0..8).map(|_| { let l = 1 + rng.next(6); (0..l).map(|_| ['a', 'b', 'c', 'é', '-', '#', '~', '.'][rng.next(8)]).collect() }).collect()
 }
 
 pub fn run(src: &str) -> Outcome {
